@@ -29,6 +29,9 @@ pub enum Family {
     BreakerErrors,
     BreakerOpen,
     BreakerHalfOpen,
+    /// error-ratio and slow-request-ratio subjects (the three above use error counts)
+    BreakerRatio,
+    BreakerSlow,
 }
 
 #[derive(Serialize, Deserialize, Clone, Copy, Debug, PartialEq)]
@@ -91,6 +94,8 @@ fn history(f: Family) -> Vec<Step> {
         Family::BreakerErrors => vec![Enter { gap: 0 }, ExitOldest { gap: 1, err: true }, Enter { gap: 1 }, ExitOldest { gap: 1, err: true }, Enter { gap: 1 }, ExitOldest { gap: 1, err: true }, Enter { gap: 1 }, Enter { gap: 600 }, ExitOldest { gap: 1, err: false }, Enter { gap: 1 }],
         Family::BreakerOpen => vec![Enter { gap: 0 }, ExitOldest { gap: 1, err: true }, Enter { gap: 1 }, Enter { gap: 100 }, Enter { gap: 300 }, Enter { gap: 100 }, ExitOldest { gap: 10, err: true }, Enter { gap: 10 }, Enter { gap: 500 }],
         Family::BreakerHalfOpen => vec![Enter { gap: 0 }, ExitOldest { gap: 1, err: true }, Enter { gap: 500 }, Enter { gap: 1 }, Enter { gap: 1 }, ExitOldest { gap: 1, err: false }, Enter { gap: 1 }, ExitOldest { gap: 1, err: true }, Enter { gap: 1 }],
+        Family::BreakerRatio => vec![Enter { gap: 0 }, ExitOldest { gap: 1, err: true }, Enter { gap: 1 }, ExitOldest { gap: 1, err: false }, Enter { gap: 1 }, ExitOldest { gap: 1, err: true }, Enter { gap: 1 }, Enter { gap: 600 }, ExitOldest { gap: 1, err: false }, Enter { gap: 1 }, ExitOldest { gap: 1, err: true }, Enter { gap: 1 }],
+        Family::BreakerSlow => vec![Enter { gap: 0 }, ExitOldest { gap: 300, err: false }, Enter { gap: 1 }, ExitOldest { gap: 1, err: false }, Enter { gap: 1 }, ExitOldest { gap: 300, err: false }, Enter { gap: 1 }, Enter { gap: 600 }, ExitOldest { gap: 1, err: false }, Enter { gap: 1 }, ExitOldest { gap: 300, err: false }, Enter { gap: 1 }],
     }
 }
 
@@ -159,8 +164,13 @@ fn hs_lax(id: &str) -> Arc<hotspot::Rule> {
 fn hs_unrelated(id: &str, thr: u64) -> Arc<hotspot::Rule> {
     Arc::new(hotspot::Rule { id: id.into(), resource: U.into(), metric_type: hotspot::MetricType::QPS, threshold: thr, duration_in_sec: 1, ..Default::default() })
 }
-fn cb_subject(_f: Family, id: &str, changed: bool) -> Arc<cb::Rule> {
-    Arc::new(cb::Rule { id: id.into(), resource: R.into(), strategy: cb::BreakerStrategy::ErrorCount, retry_timeout_ms: 400, min_request_amount: 1, stat_interval_ms: 1000, stat_sliding_window_bucket_count: 2, threshold: if changed { 5.0 } else { 2.0 }, ..Default::default() })
+fn cb_subject(f: Family, id: &str, changed: bool) -> Arc<cb::Rule> {
+    let base = cb::Rule { id: id.into(), resource: R.into(), strategy: cb::BreakerStrategy::ErrorCount, retry_timeout_ms: 400, min_request_amount: 1, stat_interval_ms: 1000, stat_sliding_window_bucket_count: 2, threshold: if changed { 5.0 } else { 2.0 }, ..Default::default() };
+    Arc::new(match f {
+        Family::BreakerRatio => cb::Rule { strategy: cb::BreakerStrategy::ErrorRatio, min_request_amount: 2, threshold: if changed { 0.9 } else { 0.5 }, ..base },
+        Family::BreakerSlow => cb::Rule { strategy: cb::BreakerStrategy::SlowRequestRatio, max_allowed_rt_ms: 100, min_request_amount: 2, threshold: if changed { 0.9 } else { 0.5 }, ..base },
+        _ => base,
+    })
 }
 fn cb_lax(id: &str) -> Arc<cb::Rule> {
     Arc::new(cb::Rule { id: id.into(), resource: R.into(), strategy: cb::BreakerStrategy::ErrorRatio, retry_timeout_ms: 400, min_request_amount: 100, stat_interval_ms: 2000, threshold: 1.0, ..Default::default() })
@@ -178,7 +188,8 @@ pub fn alts(f: Family) -> Vec<&'static str> {
         Family::HotspotQps => vec!["threshold", "metric_type", "duration_in_sec", "burst_count", "specific_items", "params_max_capacity", "control_strategy"],
         Family::HotspotThrottling => vec!["threshold", "metric_type", "duration_in_sec", "max_queueing_time_ms", "specific_items", "control_strategy"],
         Family::HotspotConcurrency => vec!["threshold", "metric_type", "specific_items", "params_max_capacity"],
-        Family::BreakerErrors | Family::BreakerOpen | Family::BreakerHalfOpen => vec!["threshold", "min_request_amount", "retry_timeout_ms", "stat_interval_ms", "stat_sliding_window_bucket_count", "strategy"],
+        Family::BreakerErrors | Family::BreakerOpen | Family::BreakerHalfOpen | Family::BreakerRatio => vec!["threshold", "min_request_amount", "retry_timeout_ms", "stat_interval_ms", "stat_sliding_window_bucket_count", "strategy"],
+        Family::BreakerSlow => vec!["threshold", "min_request_amount", "retry_timeout_ms", "stat_interval_ms", "stat_sliding_window_bucket_count", "strategy", "max_allowed_rt_ms"],
     }
 }
 enum AnySubject {
@@ -250,14 +261,26 @@ fn subject_alt(f: Family, alt: Option<usize>) -> AnySubject {
             let mut r = (*cb_initial(f)[0]).clone();
             match name {
                 None => {}
-                Some("threshold") => r.threshold += 1.0,
+                Some("threshold") => {
+                    if r.strategy == cb::BreakerStrategy::ErrorCount {
+                        r.threshold += 1.0
+                    } else {
+                        r.threshold = 0.7
+                    }
+                }
+                Some("max_allowed_rt_ms") => r.max_allowed_rt_ms = 400,
                 Some("min_request_amount") => r.min_request_amount = 3,
                 Some("retry_timeout_ms") => r.retry_timeout_ms = 100,
                 Some("stat_interval_ms") => r.stat_interval_ms = 2000,
                 Some("stat_sliding_window_bucket_count") => r.stat_sliding_window_bucket_count = 1,
                 Some("strategy") => {
-                    r.strategy = cb::BreakerStrategy::ErrorRatio;
-                    r.threshold = 0.5;
+                    if r.strategy == cb::BreakerStrategy::ErrorCount {
+                        r.strategy = cb::BreakerStrategy::ErrorRatio;
+                        r.threshold = 0.5;
+                    } else {
+                        r.strategy = cb::BreakerStrategy::ErrorCount;
+                        r.threshold = 2.0;
+                    }
                 }
                 Some(x) => unreachable!("{}", x),
             }
@@ -311,7 +334,7 @@ fn kind(f: Family) -> Kind {
 /// the breaker families shorten the first threshold so that the history reaches the state
 fn cb_initial(f: Family) -> Vec<Arc<cb::Rule>> {
     let mut s = (*cb_subject(f, "s", false)).clone();
-    if f != Family::BreakerErrors {
+    if matches!(f, Family::BreakerOpen | Family::BreakerHalfOpen) {
         s.threshold = 1.0;
     }
     vec![Arc::new(s), cb_lax("lax"), cb_unrelated("u", 3.0)]
@@ -366,7 +389,7 @@ fn do_reload(f: Family, v: Variant) -> Result<(), String> {
         Kind::Hotspot => variants!(hotspot, hs_subject(f, sid, changed), hs_lax(lid), hs_unrelated),
         Kind::Breaker => {
             let mut s = (*cb_subject(f, sid, changed)).clone();
-            if f != Family::BreakerErrors && !changed {
+            if matches!(f, Family::BreakerOpen | Family::BreakerHalfOpen) && !changed {
                 s.threshold = 1.0;
             }
             variants!(cb, Arc::new(s), cb_lax(lid), cb_unrelated)
@@ -381,7 +404,7 @@ fn objects(f: Family) -> Vec<(bool, usize)> {
     match kind(f) {
         Kind::Flow => flow::get_traffic_controller_list_for(&r).iter().map(|c| (c.rule().threshold < 999.0, Arc::as_ptr(c) as usize)).collect(),
         Kind::Hotspot => hotspot::get_traffic_controller_list_for(&r).iter().map(|c| (c.rule().threshold < 999, Arc::as_ptr(c) as *const () as usize)).collect(),
-        Kind::Breaker => cb::get_breakers_of_resource(&r).iter().map(|b| (b.bound_rule().strategy == cb::BreakerStrategy::ErrorCount, Arc::as_ptr(b) as *const () as usize)).collect(),
+        Kind::Breaker => cb::get_breakers_of_resource(&r).iter().map(|b| (b.bound_rule().min_request_amount < 100, Arc::as_ptr(b) as *const () as usize)).collect(),
     }
 }
 
@@ -455,7 +478,7 @@ fn do_step(f: Family, st: &Step, held: &mut Vec<EntryStrongPtr>, log: &Log, buil
             }
         }
     };
-    let states: Vec<String> = cb::get_breakers_of_resource(&R.to_string()).iter().filter(|b| b.bound_rule().strategy == cb::BreakerStrategy::ErrorCount).map(|b| format!("{:?}", b.current_state())).collect();
+    let states: Vec<String> = cb::get_breakers_of_resource(&R.to_string()).iter().filter(|b| b.bound_rule().min_request_amount < 100).map(|b| format!("{:?}", b.current_state())).collect();
     let l: Vec<String> = log.lock().unwrap().iter().filter(|e| e.ends_with(R)).cloned().collect();
     format!("{} {:?} {:?}", o, states, l)
 }
@@ -566,7 +589,7 @@ fn check_changed(f: Family, at: usize, base: &[String], got: &[String]) -> Resul
 }
 
 pub fn configs(thorough: bool) -> Vec<Cfg> {
-    let fams = [Family::FlowGlobal, Family::FlowPrivate, Family::FlowThrottling, Family::FlowWarmUp, Family::HotspotQps, Family::HotspotThrottling, Family::HotspotConcurrency, Family::BreakerErrors, Family::BreakerOpen, Family::BreakerHalfOpen];
+    let fams = [Family::FlowGlobal, Family::FlowPrivate, Family::FlowThrottling, Family::FlowWarmUp, Family::HotspotQps, Family::HotspotThrottling, Family::HotspotConcurrency, Family::BreakerErrors, Family::BreakerOpen, Family::BreakerHalfOpen, Family::BreakerRatio, Family::BreakerSlow];
     let vars = [Variant::LoadAllSame, Variant::LoadAllNewIds, Variant::LoadAllReordered, Variant::LoadAllUnrelatedAdded, Variant::LoadAllUnrelatedChanged, Variant::LoadAllUnrelatedRemoved, Variant::LoadResSame, Variant::Changed];
     let mut v = vec![];
     for f in fams {
